@@ -938,6 +938,10 @@ func runConc(t *testing.T, c *explore.Ctx, sc concScen, scratch string, trace bo
 		cfg := qsched.Config{Mode: qsched.Preemption, Horizon: 4000, Trace: trace}
 		if sc.Cfg.Kind == "reg" {
 			cfg.Branch = map[qsched.Kind]bool{qsched.KHTTP: true, qsched.KYield: true, qsched.KStart: true}
+		} else {
+			// layouts: every file operation of the scheme is a scheduling point too, so that a window of an
+			// index read-modify-write that the scheme's mutex does not cover can be entered by the other caller
+			cfg.FS = true
 		}
 		out := qsched.Run(c, cfg, threads, names)
 		sched = nil
